@@ -5,6 +5,7 @@ import copy
 
 from . import astutil as A
 from .constfold import StructVal, Unfoldable
+from .safeeval import ev, CannotEval
 from .loader import AnalysisError
 
 BRINE = "rpyc.core.brine"
@@ -42,7 +43,8 @@ def registry_functions(ctx, registry):
 class DumpPath:
     def __init__(self):
         self.guards = []     # (substituted expr, polarity)
-        self.items = []      # ('bytes', b) | ('pack', fmt, [arg exprs]) | ('imm', key expr) | ('raw', expr)
+        self.raw = []        # ('append', expr, node) | ('child', expr, node) | ('children', expr, node) | ('raise', expr, node)
+        self.items = []      # filled by materialise(): ('bytes', b) | ('pack', fmt, [args]) | ('imm', key, table) | ('raw', expr)
         #                      | ('child', expr) | ('children', iter expr)
         self.nodes = []      # ast nodes of the emitting statements (for locations)
         self.done = False    # a `return` was executed: later statements do not run on this path
@@ -50,6 +52,7 @@ class DumpPath:
     def clone(self):
         p = DumpPath()
         p.guards = list(self.guards)
+        p.raw = list(self.raw)
         p.items = list(self.items)
         p.nodes = list(self.nodes)
         p.done = self.done
@@ -57,6 +60,96 @@ class DumpPath:
 
     def layout(self):
         return [it[0] if it[0] != "bytes" else it for it in self.items]
+
+
+class ValEnv(dict):
+    """environment of the safe evaluator for one valuation: module constants are folded on demand, `len(x)` of a value
+    that is not a constant is the valuation's length, the dumper's parameter is the valuation's value (if any)"""
+    def __init__(self, ctx, valuation, objname):
+        dict.__init__(self)
+        self.ctx = ctx
+        self.val = valuation
+        self.objname = objname
+
+    def lookup(self, e):
+        try:
+            return True, self.ctx.folder.fold(e, self.ctx.module(BRINE))
+        except Unfoldable:
+            pass
+        if isinstance(e, ast.Name) and e.id == self.objname and "value" in self.val:
+            return True, self.val["value"]
+        return False, None
+
+    def calls(self):
+        def hook(c):
+            d = A.call_name(c)
+            if d == "len" and len(c.args) == 1:
+                try:
+                    v = self.ctx.folder.fold(c.args[0], self.ctx.module(BRINE))
+                    return True, len(v)
+                except (Unfoldable, TypeError):
+                    pass
+                if self.val.get("len") is not None:
+                    return True, self.val["len"]
+                raise CannotEval("length unknown")
+            return False, None
+        return {"*": hook}
+
+
+def safe_value(ctx, e, valuation, objname):
+    env = ValEnv(ctx, valuation, objname)
+    return ev(e, env, env.calls())
+
+
+def materialise(ctx, path, valuation, objname):
+    """classify what the path writes under this valuation"""
+    items = []
+    for kind, expr, node in path.raw:
+        if kind == "append":
+            for atom in _flatten_add(expr):
+                items.append(_atom(ctx, atom, valuation, objname))
+        elif kind in ("child", "children", "raise"):
+            items.append((kind, expr))
+    # a raw payload of known length 0 contributes no bytes
+    if valuation.get("len") == 0:
+        items = [it for it in items if not (it[0] == "raw" and _is_measured(it[1], objname))]
+    path.items = items
+    return items
+
+
+def _is_measured(expr, objname):
+    return True
+
+
+def _flatten_add(e):
+    if isinstance(e, ast.BinOp) and isinstance(e.op, ast.Add):
+        return _flatten_add(e.left) + _flatten_add(e.right)
+    return [e]
+
+
+def _atom(ctx, e, valuation, objname):
+    mod = ctx.module(BRINE)
+    if isinstance(e, ast.Call) and isinstance(e.func, ast.Attribute) and e.func.attr == "pack":
+        try:
+            sv = ctx.folder.fold(e.func.value, mod)
+        except Unfoldable:
+            sv = None
+        if isinstance(sv, StructVal):
+            return ("pack", sv.format, list(e.args))
+    if isinstance(e, ast.Subscript):
+        try:
+            tbl = ctx.folder.fold(e.value, mod)
+        except Unfoldable:
+            tbl = None
+        if isinstance(tbl, dict) and isinstance(e.slice, ast.Name) and e.slice.id == objname:
+            return ("imm", e.slice, A.dotted(e.value))
+    try:
+        v = safe_value(ctx, e, valuation, objname)
+        if isinstance(v, bytes):
+            return ("bytes", v)
+    except CannotEval:
+        pass
+    return ("raw", e)
 
 
 class DumpExec:
@@ -110,14 +203,18 @@ class DumpExec:
             c = st.value
             d = A.call_name(c)
             if d == prm_stream + ".append" and len(c.args) == 1:
-                p = p.clone()
-                for atom in self.atoms(subst(c.args[0], env)):
-                    p.items.append(atom)
-                p.nodes.append(st)
-                return [(p, env)]
+                arg = subst(c.args[0], env)
+                outs = []
+                for guards, e in _split_ifexp(arg):
+                    q = p.clone()
+                    q.guards += guards
+                    q.raw.append(("append", e, st))
+                    q.nodes.append(st)
+                    outs.append((q, env))
+                return outs
             if d == "_dump" and len(c.args) == 2:
                 p = p.clone()
-                p.items.append(("child", subst(c.args[0], env)))
+                p.raw.append(("child", subst(c.args[0], env), st))
                 p.nodes.append(st)
                 return [(p, env)]
             # delegation to another dumper: inline it
@@ -132,7 +229,7 @@ class DumpExec:
                         q = p.clone()
                         q.done = False
                         q.guards += ip.guards
-                        q.items += ip.items
+                        q.raw += ip.raw
                         q.nodes += [st] + ip.nodes
                         out.append((q, env))
                     return out
@@ -144,13 +241,14 @@ class DumpExec:
                 if A.call_name(c) == "_dump" and len(c.args) == 2 and isinstance(c.args[0], ast.Name) \
                         and c.args[0].id == st.target.id:
                     p = p.clone()
-                    p.items.append(("children", subst(st.iter, env)))
+                    p.raw.append(("children", subst(st.iter, env), st))
                     p.nodes.append(st)
                     return [(p, env)]
             raise AnalysisError("unsupported loop in dumper %s" % func.qual)
         if isinstance(st, ast.Raise):
             p = p.clone()
-            p.items.append(("raise", st.exc))
+            p.raw.append(("raise", st.exc, st))
+            p.done = True
             return [(p, env)]
         if isinstance(st, ast.Return) and st.value is None:
             p = p.clone()
@@ -184,54 +282,63 @@ class DumpExec:
         return [("raw", e)]
 
 
-def eval_guard(ctx, g, valuation):
-    """evaluate a substituted guard expression under a valuation:
-    valuation = {'len': m or None, 'truth': bool or None, 'value': v or NOVALUE}.
-    Supported: <len-expr> <cmp> const, <obj> in <folded dict/set>, bare <obj> truthiness, not/and/or."""
-    mod = ctx.module(BRINE)
-    if isinstance(g, ast.UnaryOp) and isinstance(g.op, ast.Not):
-        return not eval_guard(ctx, g.operand, valuation)
-    if isinstance(g, ast.BoolOp):
-        vals = [eval_guard(ctx, v, valuation) for v in g.values]
-        return all(vals) if isinstance(g.op, ast.And) else any(vals)
-    if isinstance(g, ast.Compare) and len(g.ops) == 1:
-        left, op, right = g.left, g.ops[0], g.comparators[0]
-        if isinstance(op, (ast.In, ast.NotIn)) and isinstance(left, ast.Name):
-            try:
-                coll = ctx.folder.fold(right, mod)
-            except Unfoldable:
-                raise AnalysisError("cannot fold membership collection in guard `%s`" % A.src(g))
-            if "value" not in valuation:
-                raise AnalysisError("guard `%s` needs a value valuation" % A.src(g))
-            r = valuation["value"] in coll
-            return r if isinstance(op, ast.In) else not r
-        lv = _measure(ctx, left, valuation)
-        rv = _measure(ctx, right, valuation)
-        if lv is None or rv is None:
-            raise AnalysisError("unsupported guard `%s`" % A.src(g))
-        return {ast.Eq: lv == rv, ast.NotEq: lv != rv, ast.Lt: lv < rv, ast.LtE: lv <= rv,
-                ast.Gt: lv > rv, ast.GtE: lv >= rv}.get(type(op))
-    if isinstance(g, ast.Name):
+def _split_ifexp(e):
+    """[(guards, expr)] : conditional expressions in an appended value become separate paths"""
+    for n in ast.walk(e):
+        if isinstance(n, ast.IfExp):
+            out = []
+            for pol, branch in ((True, n.body), (False, n.orelse)):
+                e2 = _replace_node(e, n, branch)
+                for gs, ee in _split_ifexp(e2):
+                    out.append(([(n.test, pol)] + gs, ee))
+            return out
+    return [([], e)]
+
+
+def _replace_node(root, old, new):
+    if root is old:
+        return A.clone(new)
+
+    class R(ast.NodeTransformer):
+        def visit(self, node):
+            if node is old:
+                return A.clone(new)
+            return self.generic_visit(node)
+    import copy as _c
+    # work on a structural copy that preserves identity mapping for `old`
+    mapping = {}
+
+    def cl(n):
+        if isinstance(n, list):
+            return [cl(x) for x in n]
+        if not isinstance(n, ast.AST):
+            return n
+        if n is old:
+            return A.clone(new)
+        m = type(n)()
+        for f, v in ast.iter_fields(n):
+            setattr(m, f, cl(v))
+        for a in ("lineno", "col_offset", "end_lineno", "end_col_offset"):
+            if hasattr(n, a):
+                setattr(m, a, getattr(n, a))
+        return m
+    return cl(root)
+
+
+def eval_guard(ctx, g, valuation, objname="obj"):
+    """evaluate a substituted guard under a valuation {'len': m} | {'value': v, 'len': digits} | {'truth': b}"""
+    if isinstance(g, ast.Name) and g.id == objname:
         if valuation.get("truth") is not None:
             return valuation["truth"]
-        if valuation.get("len") is not None:
+        if valuation.get("len") is not None and "value" not in valuation:
             return valuation["len"] > 0        # str/bytes/tuple: empty <=> falsy (an empty str encodes to 0 bytes)
         if "value" in valuation:
             return bool(valuation["value"])
         raise AnalysisError("guard `%s` needs a truth valuation" % A.src(g))
-    raise AnalysisError("unsupported guard `%s`" % A.src(g))
-
-
-def _measure(ctx, e, valuation):
-    if isinstance(e, ast.Call) and A.call_name(e) == "len" and len(e.args) == 1:
-        return valuation.get("len")
     try:
-        v = ctx.folder.fold(e, ctx.module(BRINE))
-        if isinstance(v, int):
-            return v
-    except Unfoldable:
-        pass
-    return None
+        return bool(safe_value(ctx, g, valuation, objname))
+    except CannotEval as e:
+        raise AnalysisError("unsupported guard `%s` (%s)" % (A.src(g), e))
 
 
 def guard_constants(ctx, paths):
@@ -246,23 +353,26 @@ def guard_constants(ctx, paths):
                         v = ctx.folder.fold(n, ctx.module(BRINE))
                         if isinstance(v, int) and not isinstance(v, bool):
                             out.add(v)
+                        elif isinstance(v, (tuple, list, dict, bytes)):
+                            out.add(len(v))
                     except Unfoldable:
                         pass
     return out
 
 
-def select_path(ctx, paths, valuation):
+def select_path(ctx, paths, valuation, objname="obj"):
     hit = []
     for p in paths:
         ok = True
         for g, pol in p.guards:
-            if bool(eval_guard(ctx, g, valuation)) != pol:
+            if bool(eval_guard(ctx, g, valuation, objname)) != pol:
                 ok = False
                 break
         if ok:
             hit.append(p)
     if len(hit) != 1:
         raise AnalysisError("guard chain is not a partition: %d paths match %r" % (len(hit), valuation))
+    materialise(ctx, hit[0], valuation, objname)
     return hit[0]
 
 
